@@ -55,6 +55,10 @@ def channels(L, Lb):
     return sorted(out)
 
 
+def use_ref_small(L):
+    return L <= 20 or L in (33, 48, 64)
+
+
 def check_L(part, job):
     from chmpy.shape.sht import SHT
 
@@ -303,6 +307,31 @@ def check_L(part, job):
             vr = complex(sht.evaluate_at_points(r, th, 0.7))
             if not (abs(vc - want_c) <= t * 20) or not (abs(vr - want_r) <= t * 20):
                 fail("evaluate_at_points:pole", "point-wise evaluation at theta=%s gives %s / %s, the m=0 sum is %s / %s" % ("0" if th == 0 else "pi", vc, vr, want_c, want_r))
+    # ---------------- special VALUES of complex-layout vectors: all ones, real and symmetric in m (c(l,-m) = c(l,m): a conjugate
+    # palindrome per degree - NOT a real function unless the odd m vanish), 1/(1+l), purely imaginary constants, alternating signs:
+    # synthesis followed by analysis returns the vector, and the compiled path agrees with point-wise evaluation -----------------
+    if L >= 1:
+        lc_ = np.array([l for (l, m) in lmc], dtype=float)
+        mc_ = np.array([m for (l, m) in lmc], dtype=float)
+        specials = {"all ones": np.ones(len(lmc), dtype=complex), "1/(1+l)": (1.0 / (1.0 + lc_)).astype(complex), "symmetric in m": (1.0 + np.abs(mc_) + 0.1 * lc_).astype(complex),
+                    "all i": np.full(len(lmc), 1j), "alternating signs": ((-1.0) ** np.arange(len(lmc))).astype(complex), "conjugate palindrome": (1.0 + 0.5j * np.sign(mc_)) * (1.0 + lc_)}
+        for sname_, a_ in specials.items():
+            part.tr(2)
+            a_ = np.ascontiguousarray(a_)
+            f_ = sht.synthesis(a_)
+            back_ = sht.analysis(f_)
+            if not (np.abs(back_ - a_).max() <= t * 4 * float(np.abs(a_).max())):
+                fail("roundtrip-special-values", "analysis(synthesis(c)) differs from c by %.3g for the complex-layout vector '%s'" % (float(np.abs(back_ - a_).max()), sname_))
+                continue
+            th_, ph_ = 0.83, 2.17
+            v_ = complex(sht.evaluate_at_points(a_, th_, ph_))
+            want_ = complex(ylm.synth_complex(L, a_, np.array([th_]), np.array([ph_]))[0])
+            if not (abs(v_ - want_) <= t * 20 * (1.0 + abs(want_))):
+                fail("evaluate-special-values", "point-wise evaluation of the vector '%s' differs from the harmonics reference by %.3g" % (sname_, abs(v_ - want_)))
+            if use_ref_small(L):
+                ref_ = ylm.synth_complex(L, a_, theta.ravel(), phi.ravel()).reshape(theta.shape)
+                if not (np.abs(ref_ - f_).max() <= t * 20 * (1.0 + float(np.abs(ref_).max()))):
+                    fail("synthesis-special-values", "synthesis of the vector '%s' deviates from the harmonics reference by %.3g" % (sname_, float(np.abs(ref_ - f_).max())))
     # ---------------- angles given as whole numbers in integer types (theta = 0 the north pole, 1, 2, 3 rad; phi = 0, 5): the value is
     # that at the same angle written as a float, for Python ints, numpy integers and 0-d arrays, real and complex data ------------
     if L >= 1:
